@@ -19,7 +19,9 @@ Record SInv (st : rstate) : Prop := {
   s_inv : Inv st;
   s_files : forall k m, cache_get (files_cache st) k = Some m -> loadable k;
   s_res : forall k m, cache_get (resolved_cache st) k = Some m ->
-            exists f, file_owner st m = Some f /\ select fs (cands_file_or_dir fs (parse k)) = SFile f
+            exists f, file_owner st m = Some f /\ select fs (cands_file_or_dir fs (parse k)) = SFile f;
+  s_node : forall k m, cache_get (node_cache st) k = Some m ->
+            exists d r f, k = render d ++ 0 :: r /\ file_owner st m = Some f /\ select fs (cands_node fs (parse (render d)) r) = SFile f
 }.
 
 Definition sgood (st st' : rstate) : Prop := SInv st' /\ ext st st'.
@@ -34,21 +36,25 @@ Proof. intros [_ E1] [I2 E2]. split; [exact I2|eapply ext_trans; eassumption]. Q
 Lemma sinv_sub st st' : Inv st' -> SInv st ->
   (forall k m, cache_get (files_cache st') k = Some m -> cache_get (files_cache st) k = Some m) ->
   (forall k m, cache_get (resolved_cache st') k = Some m -> cache_get (resolved_cache st) k = Some m) ->
+  (forall k m, cache_get (node_cache st') k = Some m -> cache_get (node_cache st) k = Some m) ->
   (forall j, (j < length (store st))%nat -> file_owner st' j = file_owner st j) ->
   SInv st'.
 Proof.
-  intros HI' [HI F R] Hf Hr Ho. constructor; [exact HI'| |].
+  intros HI' [HI F R N] Hf Hr Hn Ho. constructor; [exact HI'| | |].
   - intros k m H. eapply F. apply Hf. exact H.
   - intros k m H. apply Hr in H. destruct (R k m H) as (f & H1 & H2). exists f. split; [|exact H2].
+    rewrite Ho; [exact H1|]. eapply file_owner_lt. exact H1.
+  - intros k m H. apply Hn in H. destruct (N k m H) as (d & r & f & H0 & H1 & H2). exists d, r, f. split; [exact H0|split; [|exact H2]].
     rewrite Ho; [exact H1|]. eapply file_owner_lt. exact H1.
 Qed.
 
 Lemma sinv_same_core st st' : same_core st st' -> SInv st -> SInv st'.
 Proof.
   intros Hs HS. pose proof Hs as (Hf & Hr & Hn & Hl & Ho).
-  apply (sinv_sub st st'); [eapply same_core_inv; [exact Hs|exact (s_inv _ HS)]|exact HS| | |].
+  apply (sinv_sub st st'); [eapply same_core_inv; [exact Hs|exact (s_inv _ HS)]|exact HS| | | |].
   - intros k m H. rewrite <- Hf. exact H.
   - intros k m H. rewrite <- Hr. exact H.
+  - intros k m H. rewrite <- Hn. exact H.
   - intros j _. apply Ho.
 Qed.
 
@@ -60,33 +66,37 @@ Lemma sinv_forget st m ps : SInv st -> file_owner st m = Some ps -> cache_get (f
 Proof.
   intros HS Ho Hp. pose proof (s_inv _ HS) as HI.
   destruct (forget_good st m ps HI Ho Hp) as (HIf & _ & _ & _ & Hown).
-  destruct (forget_get st m ps HI) as (Hf & Hr & _).
-  apply (sinv_sub st); [exact HIf|exact HS| | |].
+  destruct (forget_get st m ps HI) as (Hf & Hr & Hn).
+  apply (sinv_sub st); [exact HIf|exact HS| | | |].
   - intros k m' H. rewrite Hf in H. destruct (zs_eqb k ps); [discriminate|].
     destruct (cache_get (files_cache st) k) as [x|]; [|discriminate]. destruct (Nat.eqb x m); [discriminate|exact H].
   - intros k m' H. rewrite Hr in H.
     destruct (cache_get (resolved_cache st) k) as [x|]; [|discriminate]. destruct (Nat.eqb x m); [discriminate|exact H].
+  - intros k m' H. rewrite Hn in H.
+    destruct (cache_get (node_cache st) k) as [x|]; [|discriminate]. destruct (Nat.eqb x m); [discriminate|exact H].
   - intros j _. apply Hown.
 Qed.
 
 Lemma sinv_new_module st o : SInv st -> SInv (fst (new_module st o)).
 Proof.
   intro HS. pose proof (s_inv _ HS) as HI.
-  destruct (new_module_facts st o) as (_ & Hf & Hr & _ & _ & Ho & _). cbv zeta in *.
-  apply (sinv_sub st); [apply new_module_inv; exact HI|exact HS| | |exact Ho].
+  destruct (new_module_facts st o) as (_ & Hf & Hr & Hn & _ & Ho & _). cbv zeta in *.
+  apply (sinv_sub st); [apply new_module_inv; exact HI|exact HS| | | |exact Ho].
   - intros k m H. rewrite <- Hf. exact H.
   - intros k m H. rewrite <- Hr. exact H.
+  - intros k m H. rewrite <- Hn. exact H.
 Qed.
 
 Lemma sinv_add_file st1 ps m : SInv st1 -> cache_get (files_cache st1) ps = None -> file_owner st1 m = Some ps -> loadable ps ->
   SInv (with_files st1 (cache_set (files_cache st1) ps m)).
 Proof.
-  intros [HI F R] Ec Hon Hl. constructor.
+  intros [HI F R N] Ec Hon Hl. constructor.
   - apply add_file_inv; assumption.
   - intros k m' H. cbn [files_cache with_files] in H. rewrite get_set in H. destruct (zs_eqb k ps) eqn:E.
     + apply zs_eqb_eq in E. subst k. exact Hl.
     + eapply F. exact H.
   - intros k m' H. exact (R k m' H).
+  - intros k m' H. exact (N k m' H).
 Qed.
 
 (* ---- open recursion ---- *)
@@ -191,13 +201,15 @@ Proof.
     { split; [|apply Hext_forget; assumption].
       destruct (Hcarry st3 E23) as [Ho3 Hp3].
       destruct (forget_good st3 m ps HI3 Ho3 Hp3) as (HIf & _ & _ & _ & Hown).
-      destruct (forget_get st3 m ps HI3) as (Hf & Hr & _).
-      destruct S3 as (Sf & Sr & _ & _ & So).
-      apply (sinv_sub st); [exact HIf|exact HS| | |].
+      destruct (forget_get st3 m ps HI3) as (Hf & Hr & Hnn).
+      destruct S3 as (Sf & Sr & Sn & _ & So).
+      apply (sinv_sub st); [exact HIf|exact HS| | | |].
       - intros k m' H. rewrite Hf in H. destruct (zs_eqb k ps) eqn:E; [discriminate|]. rewrite Sf, Hget2, E in H.
         destruct (cache_get (files_cache st) k) as [x|]; [|discriminate]. destruct (Nat.eqb x m); [discriminate|exact H].
       - intros k m' H. rewrite Hr in H. rewrite Sr in H. unfold st2 in H. cbn [resolved_cache with_files] in H. rewrite Hr1 in H.
         destruct (cache_get (resolved_cache st) k) as [x|]; [|discriminate]. destruct (Nat.eqb x m); [discriminate|exact H].
+      - intros k m' H. rewrite Hnn in H. rewrite Sn in H. unfold st2 in H. cbn [node_cache with_files] in H. rewrite Hn1 in H.
+        destruct (cache_get (node_cache st) k) as [x|]; [|discriminate]. destruct (Nat.eqb x m); [discriminate|exact H].
       - intros j Hj. rewrite Hown, So. apply Ho1. exact Hj. }
     (* the file exists: the new entry is legitimate *)
     assert (Hexists : loadable ps -> forall st4, same_core st2 st4 -> SInv st4 /\ ext st2 st4).
@@ -312,15 +324,33 @@ Proof.
   - intros k' m' H. cbn [resolved_cache with_resolved] in H. rewrite get_set in H. destruct (zs_eqb k' k) eqn:E.
     + apply zs_eqb_eq in E. subst k'. inversion H; subst m'. exists f. split; [exact Ho|exact Hsel].
     + exact (s_res _ HS k' m' H).
+  - intros k' m' H. exact (s_node _ HS k' m' H).
 Qed.
 
-Lemma sinv_alias_node st k m : SInv st -> good_res st (ROk m) -> SInv (with_node st (cache_set (node_cache st) k m)).
+Lemma sinv_alias_node st d r m f : SInv st -> file_owner st m = Some f -> cache_get (files_cache st) f = Some m ->
+  select fs (cands_node fs (parse (render d)) r) = SFile f ->
+  SInv (with_node st (cache_set (node_cache st) (render d ++ 0 :: r) m)).
 Proof.
-  intros HS Hr. pose proof (s_inv _ HS) as HI.
+  intros HS Ho Hp Hsel. pose proof (s_inv _ HS) as HI.
   constructor.
-  - apply (alias_node_good st k m HI Hr).
+  - apply (alias_node_good st _ m HI). exists f. split; assumption.
   - intros k' m' H. eapply s_files; [exact HS|exact H].
   - intros k' m' H. exact (s_res _ HS k' m' H).
+  - intros k' m' H. cbn [node_cache with_node] in H. rewrite get_set in H. destruct (zs_eqb k' (render d ++ 0 :: r)) eqn:E.
+    + apply zs_eqb_eq in E. subst k'. inversion H; subst m'. exists d, r, f. split; [reflexivity|split; [exact Ho|exact Hsel]].
+    + exact (s_node _ HS k' m' H).
+Qed.
+
+(* the key start + "\x00" + name splits in one way only when neither part contains a NUL *)
+Lemma nul_split (a b a' b' : zs) : a ++ 0 :: b = a' ++ 0 :: b' -> ~ In 0 a -> ~ In 0 b -> a = a' /\ b = b'.
+Proof.
+  revert a'. induction a as [|x a IH]; intros a' E Ha Hb.
+  - destruct a' as [|y a']; cbn in E.
+    + inversion E. auto.
+    + inversion E; subst. exfalso. apply Hb. apply in_or_app. right. left. reflexivity.
+  - destruct a' as [|y a']; cbn in E.
+    + inversion E; subst. exfalso. apply Ha. left. reflexivity.
+    + inversion E; subst. destruct (IH a' H1) as [-> ->]; [intro; apply Ha; right; assumption|exact Hb|auto].
 Qed.
 
 (* the outcome of resolve() for a file-or-directory request, in any state satisfying the invariant, hit or miss *)
@@ -331,15 +361,39 @@ Definition rs_res (st' : rstate) (k : zs) (r : res) : Prop :=
   | _ => True
   end.
 
+Definition rn_res (st' : rstate) (d : path) (r : zs) (x : res) : Prop :=
+  match x with
+  | ROk m => exists f, file_owner st' m = Some f /\ select fs (cands_node fs (parse (render d)) r) = SFile f
+  | RNone => select fs (cands_node fs (parse (render d)) r) = SNotFound
+  | _ => True
+  end.
+
 Lemma resolve_sgood st d r : SInv st ->
   sgood st (fst (resolve fs nat_reg rq st d r)) /\
   (is_file_or_dir_path r = true ->
-   rs_res (fst (resolve fs nat_reg rq st d r)) (render (pjoin (if is_abs r then None else Some d) r)) (snd (resolve fs nat_reg rq st d r))).
+   rs_res (fst (resolve fs nat_reg rq st d r)) (render (pjoin (if is_abs r then None else Some d) r)) (snd (resolve fs nat_reg rq st d r))) /\
+  (is_file_or_dir_path r = false -> snd (load_native nat_reg st r) = RNone -> ~ In 0 (render d) -> ~ In 0 r ->
+   rn_res (fst (resolve fs nat_reg rq st d r)) d r (snd (resolve fs nat_reg rq st d r))).
 Proof.
   intro HS. unfold resolve.
   set (p := pjoin (if is_abs r then None else Some d) r). set (ps := render p).
   destruct (is_file_or_dir_path r).
-  - destruct (cache_get (resolved_cache st) ps) as [m0|] eqn:Ec.
+  - cut ((sgood st (fst (match cache_get (resolved_cache st) ps with
+                         | Some m => (st, ROk m)
+                         | None => let '(st1, r0) := try_cands fs rq st (cands_file_or_dir fs (parse ps)) in
+                                   match r0 with ROk m => (with_resolved st1 (cache_set (resolved_cache st1) ps m), ROk m) | other => (st1, other) end
+                         end))) /\
+         (true = true -> rs_res (fst (match cache_get (resolved_cache st) ps with
+                         | Some m => (st, ROk m)
+                         | None => let '(st1, r0) := try_cands fs rq st (cands_file_or_dir fs (parse ps)) in
+                                   match r0 with ROk m => (with_resolved st1 (cache_set (resolved_cache st1) ps m), ROk m) | other => (st1, other) end
+                         end)) ps (snd (match cache_get (resolved_cache st) ps with
+                         | Some m => (st, ROk m)
+                         | None => let '(st1, r0) := try_cands fs rq st (cands_file_or_dir fs (parse ps)) in
+                                   match r0 with ROk m => (with_resolved st1 (cache_set (resolved_cache st1) ps m), ROk m) | other => (st1, other) end
+                         end)))).
+    { intros [A B]. split; [exact A|split; [exact B|discriminate]]. }
+    destruct (cache_get (resolved_cache st) ps) as [m0|] eqn:Ec.
     + cbn [fst snd]. split; [apply sgood_refl; exact HS|]. intros _. cbn [rs_res]. exact (s_res _ HS ps m0 Ec).
     + destruct (try_cands_select (cands_file_or_dir fs (parse ps)) st HS) as [G R].
       destruct (try_cands fs rq st (cands_file_or_dir fs (parse ps))) as [st1 x]. cbn [fst snd] in *.
@@ -349,18 +403,23 @@ Proof.
         split; [split; [exact HS2|eapply ext_trans; [exact (proj2 G)|constructor; auto]]|].
         intros _. exists f. split; [exact Ho|exact Hsel].
       * split; [exact G|intros _; exact R].
-  - split; [|discriminate].
-    pose proof (load_native_sgood st r HS) as G0. destruct (load_native nat_reg st r) as [st0 rn]. cbn [fst] in G0.
-    destruct rn as [m| | | |]; try exact G0.
+  - pose proof (load_native_sgood st r HS) as G0.
+    destruct (load_native nat_reg st r) as [st0 rn] eqn:ELN. cbn [fst snd] in *.
+    destruct rn as [m| | | |]; try (split; [exact G0|split; [discriminate|intros _ Hrn; discriminate Hrn]]).
     set (nk := render d ++ 0 :: r).
-    destruct (cache_get (node_cache st0) nk) eqn:Ec; [exact G0|].
-    destruct (try_cands_select (cands_node fs d r) st0 (proj1 G0)) as [G R].
-    destruct (try_cands fs rq st0 (cands_node fs d r)) as [st1 x]. cbn [fst snd] in *.
-    assert (G01 : sgood st st1) by (eapply sgood_trans; eassumption).
-    destruct x as [m| | | |]; try exact G01. cbn [fst tc_res] in *.
-    destruct R as (f & Ho & Hp & _).
-    split; [|eapply ext_trans; [exact (proj2 G01)|constructor; auto]].
-    apply sinv_alias_node; [exact (proj1 G)|]. exists f. split; assumption.
+    destruct (cache_get (node_cache st0) nk) as [m0|] eqn:Ec.
+    + cbn [fst snd]. split; [exact G0|split; [discriminate|]]. intros _ _ Hd Hr. cbn [rn_res].
+      destruct (s_node _ (proj1 G0) nk m0 Ec) as (d' & r' & f & Hk & Ho & Hsel). unfold nk in Hk.
+      destruct (nul_split _ _ _ _ Hk Hd Hr) as [Hd' Hr']. exists f. split; [exact Ho|]. rewrite Hd', Hr'. exact Hsel.
+    + destruct (try_cands_select (cands_node fs (parse (render d)) r) st0 (proj1 G0)) as [G R].
+      destruct (try_cands fs rq st0 (cands_node fs (parse (render d)) r)) as [st1 x]. cbn [fst snd] in *.
+      assert (G01 : sgood st st1) by (eapply sgood_trans; eassumption).
+      destruct x as [m| | | |]; cbn [fst snd tc_res rn_res] in *; try (split; [exact G01|split; [discriminate|intros; exact I]]).
+      * destruct R as (f & Ho & Hp & Hsel).
+        assert (HS2 : SInv (with_node st1 (cache_set (node_cache st1) nk m))) by (apply (sinv_alias_node st1 d r m f); [exact (proj1 G)|assumption..]).
+        split; [split; [exact HS2|eapply ext_trans; [exact (proj2 G01)|constructor; auto]]|]. split; [discriminate|].
+        intros _ _ _ _. exists f. split; [exact Ho|exact Hsel].
+      * split; [exact G01|split; [discriminate|intros _ _ _ _; exact R]].
 Qed.
 
 End Open.
@@ -371,11 +430,11 @@ Theorem require_sgood fs nat_reg fuel : forall st d r, SInv fs st -> sgood fs st
 Proof.
   induction fuel as [|f IH]; intros st d r HS.
   - apply sgood_refl. exact HS.
-  - cbn [require_]. apply resolve_sgood; [|exact HS]. intros st' d' r' HS'. apply IH. exact HS'.
+  - cbn [require_]. apply (resolve_sgood fs nat_reg (require_ fs nat_reg f)); [|exact HS]. intros st' d' r' HS'. apply IH. exact HS'.
 Qed.
 
 Lemma init_sinv fs : SInv fs init_state.
-Proof. constructor; [apply init_inv| |]; intros k m H; discriminate. Qed.
+Proof. constructor; [apply init_inv| | |]; intros k m H; discriminate. Qed.
 
 Theorem top_require_sinv fs nat_reg fuel st d r : SInv fs st -> SInv fs (fst (top_require fs nat_reg fuel st d r)).
 Proof.
@@ -409,7 +468,7 @@ Proof.
   intros Hp E k. pose proof (reachable_sinv fs nat_reg fuel calls) as HS.
   destruct fuel as [|f]; [cbn in E; inversion E; subst; exact I|].
   cbn [require_] in E.
-  destruct (resolve_sgood fs nat_reg (require_ fs nat_reg f) (fun s dd rr Hs => require_sgood fs nat_reg f s dd rr Hs) _ d r HS) as [_ R].
+  destruct (resolve_sgood fs nat_reg (require_ fs nat_reg f) (fun s dd rr Hs => require_sgood fs nat_reg f s dd rr Hs) _ d r HS) as (_ & R & _).
   rewrite E in R. cbn [fst snd] in R. exact (R Hp).
 Qed.
 
@@ -435,4 +494,38 @@ Theorem resolve_is_node_from_clean_dir fs nat_reg fuel calls d r st' m :
 Proof.
   intros Hp Hr Hnd Hc E. eapply resolve_is_node_in_every_state; try eassumption.
   cbv zeta. apply parse_render. destruct (is_abs r); [apply clean_parse|apply clean_pjoin; exact Hc].
+Qed.
+
+(* the same for bare names (searched through node_modules, cached in r.nodeModules under start + "\x00" + name): when the name
+   is not a native or core module and neither the requiring directory nor the name contains a NUL, the module obtained in any
+   reachable state belongs to the file the stateless walk selects *)
+Theorem bare_history_independent fs nat_reg fuel calls d r st' x :
+  is_file_or_dir_path r = false ->
+  snd (load_native nat_reg (run_tops fs nat_reg fuel init_state calls) r) = RNone ->
+  ~ In 0 (render d) -> ~ In 0 r ->
+  require_ fs nat_reg fuel (run_tops fs nat_reg fuel init_state calls) d r = (st', x) ->
+  match x with
+  | ROk m => exists f, file_owner st' m = Some f /\ select fs (cands_node fs (parse (render d)) r) = SFile f
+  | RNone => select fs (cands_node fs (parse (render d)) r) = SNotFound
+  | _ => True
+  end.
+Proof.
+  intros Hp Hn Hd Hr E. pose proof (reachable_sinv fs nat_reg fuel calls) as HS.
+  destruct fuel as [|f0]; [cbn in E; inversion E; subst; exact I|].
+  cbn [require_] in E.
+  destruct (resolve_sgood fs nat_reg (require_ fs nat_reg f0) (fun s dd rr Hs => require_sgood fs nat_reg f0 s dd rr Hs) _ d r HS) as (_ & _ & R).
+  rewrite E in R. cbn [fst snd] in R. exact (R Hp Hn Hd Hr).
+Qed.
+
+Corollary bare_is_node_from_clean_dir fs nat_reg fuel calls d r st' m :
+  is_file_or_dir_path r = false ->
+  snd (load_native nat_reg (run_tops fs nat_reg fuel init_state calls) r) = RNone ->
+  ~ In 0 (render d) -> ~ In 0 r -> rooted d = true -> no_double_nm (rev (segs d)) -> clean d ->
+  require_ fs nat_reg fuel (run_tops fs nat_reg fuel init_state calls) d r = (st', ROk m) ->
+  exists f, file_owner st' m = Some f /\ spec_resolve fs d r = SFile f.
+Proof.
+  intros Hp Hn Hd Hr Hro Hnd Hc E.
+  pose proof (bare_history_independent fs nat_reg fuel calls d r st' (ROk m) Hp Hn Hd Hr E) as (f & Ho & Hsel).
+  exists f. split; [exact Ho|]. rewrite (parse_render d Hc) in Hsel.
+  rewrite <- (model_resolve_is_node fs d r Hro Hnd). unfold model_resolve. rewrite Hp. exact Hsel.
 Qed.
